@@ -528,7 +528,7 @@ func (p *TextLayoutPango) setText(text string, justify bool) {
 
 	letterSpacing := p.Style.LetterSpacing
 
-	wordBreaking := p.Style.OverflowWrap == OAnywhere || p.Style.OverflowWrap == OBreakWord
+	wordBreaking := p.Style.OverflowWrap == OAnywhere || p.Style.OverflowWrap == OBreakWord || p.Style.WordBreak == WBBreakAll
 
 	if text != "" && (wordSpacing != 0 || letterSpacing != 0 || wordBreaking) {
 		letterSpacingInt := PangoUnitsFromFloat(letterSpacing)
